@@ -1010,18 +1010,20 @@ def work_items(tier, flt):
     quick = tier == "quick"
     sel = flt.get("env")
     items = []
+    # case counts are fixed per tier; ids / machine shards are started first in the thorough tier
+    # (they are the long ones there), the shipped groups first in the quick tier (compiles dominate)
     if not sel or "ids" in sel:
-        n = int((6000 if quick else 75000) * scale)
-        for sh in range(4):
-            items.append({"kind": "ids", "shard": sh, "n": n, "cost": 3 if quick else 6})
+        shards, n = (4, int(10000 * scale)) if quick else (6, int(60000 * scale))
+        for sh in range(shards):
+            items.append({"kind": "ids", "shard": sh, "n": n, "cost": 3 if quick else 20})
     if not sel or "machine" in sel:
-        runs, steps = (int(300 * scale), 30) if quick else (int(4000 * scale), 50)
-        for sh in range(4):
-            items.append({"kind": "machine", "shard": sh, "n": runs, "steps": steps, "cost": 3 if quick else 6})
+        shards, runs, steps = (4, int(500 * scale), 30) if quick else (6, int(3000 * scale), 50)
+        for sh in range(shards):
+            items.append({"kind": "machine", "shard": sh, "n": runs, "steps": steps, "cost": 3 if quick else 20})
     for gi, g in enumerate(GROUPS):
         ids = [i for i in g if not sel or "shipped" in sel or i in sel]
         if ids:
-            items.append({"kind": "shipped", "group": gi, "ids": ids, "n": max(1, int((15 if quick else 400) * scale)),
+            items.append({"kind": "shipped", "group": gi, "ids": ids, "n": max(1, int((30 if quick else 600) * scale)),
                           "steps": 12 if quick else 30, "extras": gi == 0 and (not sel or "shipped" in sel),
                           "cost": 10})
     return items
@@ -1116,8 +1118,7 @@ def _eval_any(case):
     if kind == "shipped_static":
         return [(case["id"], o, s, m) for o, s, m in eval_static(case)[0]]
     if kind == "shipped_run":
-        out = [(case["id"], o, s, m) for o, s, m in eval_static({"id": case["id"]})[0]]
-        return out + [(case["id"], o, s, m) for o, s, m in eval_run(case)[0]]
+        return [(case["id"], o, s, m) for o, s, m in eval_run(case)[0]]
     if kind == "shipped_ids":
         import jumanji
 
